@@ -18,6 +18,7 @@ import (
 	"github.com/elnosh/gonuts/cashu"
 	"github.com/elnosh/gonuts/cashu/nuts/nut01"
 	"github.com/elnosh/gonuts/cashu/nuts/nut03"
+	"github.com/elnosh/gonuts/cashu/nuts/nut05"
 	"github.com/elnosh/gonuts/cashu/nuts/nut07"
 	"github.com/elnosh/gonuts/cashu/nuts/nut09"
 	"github.com/elnosh/gonuts/cashu/nuts/nut13"
@@ -373,5 +374,157 @@ func TestVerifReplay_ReceiveAdvancesCounter(t *testing.T) {
 		if seen[b] {
 			t.Fatalf("CONFIRMED: the second receive submitted output %s for signing again (stored counter %d after two receives)", b, db.GetKeysetCounter(ks.Id))
 		}
+	}
+}
+
+// C19: a melt that stays PENDING and is later found PAID with NUT-08 change:
+// the change outputs were derived from the ACTIVE keyset's counter at melt time,
+// so that is the counter that has to move past them - also when the inputs of
+// the melt came from an older (inactive) keyset.
+func TestVerifReplay_PendingMeltChangeCounter(t *testing.T) {
+	mintMaster, _ := hdkeychain.NewMaster([]byte("0123456789abcdef0123456789abcdef"), &chaincfg.MainNetParams)
+	oldKs, err := crypto.GenerateKeyset(mintMaster, 0, 0, false)
+	if err != nil {
+		t.Fatal(err)
+	}
+	newKs, err := crypto.GenerateKeyset(mintMaster, 1, 0, true)
+	if err != nil {
+		t.Fatal(err)
+	}
+	var blank cashu.BlindedMessages // the blank outputs of the melt request
+	const quoteId = "melt-quote-1"
+	mux := http.NewServeMux()
+	mux.HandleFunc("/v1/keysets", func(rw http.ResponseWriter, req *http.Request) {
+		fmt.Fprintf(rw, `{"keysets":[{"id":%q,"unit":"sat","active":false,"input_fee_ppk":0},{"id":%q,"unit":"sat","active":true,"input_fee_ppk":0}]}`, oldKs.Id, newKs.Id)
+	})
+	mux.HandleFunc("/v1/melt/bolt11", func(rw http.ResponseWriter, req *http.Request) {
+		var r nut05.PostMeltBolt11Request
+		json.NewDecoder(req.Body).Decode(&r)
+		blank = r.Outputs
+		json.NewEncoder(rw).Encode(&nut05.PostMeltQuoteBolt11Response{Quote: quoteId, Amount: 8, FeeReserve: 8, State: nut05.Pending})
+	})
+	mux.HandleFunc("/v1/melt/quote/bolt11/"+quoteId, func(rw http.ResponseWriter, req *http.Request) {
+		// the payment went through with 3 sat of the fee reserve unused: change on the first two blank outputs
+		resp := nut05.PostMeltQuoteBolt11Response{Quote: quoteId, Amount: 8, FeeReserve: 8, State: nut05.Paid, Preimage: "00"}
+		for i, amt := range []uint64{1, 2} {
+			if i >= len(blank) {
+				break
+			}
+			b, _ := hex.DecodeString(blank[i].B_)
+			B_, _ := secp256k1.ParsePubKey(b)
+			C_ := crypto.SignBlindedMessage(B_, newKs.Keys[amt].PrivateKey)
+			resp.Change = append(resp.Change, cashu.BlindedSignature{Amount: amt, Id: newKs.Id, C_: hex.EncodeToString(C_.SerializeCompressed())})
+		}
+		json.NewEncoder(rw).Encode(&resp)
+	})
+	srv := httptest.NewServer(mux)
+	defer srv.Close()
+	db, err := storage.InitBolt(t.TempDir())
+	if err != nil {
+		t.Fatal(err)
+	}
+	defer db.Close()
+	wOld := crypto.WalletKeyset{Id: oldKs.Id, MintURL: srv.URL, Unit: "sat", Active: false, PublicKeys: oldKs.PublicKeys()}
+	wNew := crypto.WalletKeyset{Id: newKs.Id, MintURL: srv.URL, Unit: "sat", Active: true, PublicKeys: newKs.PublicKeys()}
+	if err := db.SaveKeyset(&wOld); err != nil {
+		t.Fatal(err)
+	}
+	if err := db.SaveKeyset(&wNew); err != nil {
+		t.Fatal(err)
+	}
+	// the wallet only holds ecash of the old keyset (the mint rotated since)
+	have := cashu.Proofs{
+		{Amount: 8, Id: oldKs.Id, Secret: "old-8a", C: "02" + fmt.Sprintf("%064x", 1)},
+		{Amount: 8, Id: oldKs.Id, Secret: "old-8b", C: "02" + fmt.Sprintf("%064x", 2)},
+	}
+	if err := db.SaveProofs(have); err != nil {
+		t.Fatal(err)
+	}
+	if err := db.SaveMeltQuote(storage.MeltQuote{QuoteId: quoteId, Mint: srv.URL, Method: "bolt11", State: nut05.Unpaid, Unit: "sat", Amount: 8, FeeReserve: 8}); err != nil {
+		t.Fatal(err)
+	}
+	master, _ := hdkeychain.NewMaster([]byte("fedcba9876543210fedcba9876543210"), &chaincfg.MainNetParams)
+	wOldNoKeys := wOld
+	w := &Wallet{db: db, unit: cashu.Sat, defaultMint: srv.URL, masterKey: master,
+		mints: map[string]walletMint{srv.URL: {mintURL: srv.URL, activeKeyset: wNew, inactiveKeysets: map[string]crypto.WalletKeyset{oldKs.Id: wOldNoKeys}}}}
+	before := db.GetKeysetCounter(newKs.Id)
+	resp, err := w.Melt(quoteId)
+	if err != nil {
+		t.Skipf("melt failed: %v", err)
+	}
+	if resp.State != nut05.Pending || len(blank) < 2 {
+		t.Skipf("setup: state %v, %d blank outputs", resp.State, len(blank))
+	}
+	st, err := w.CheckMeltQuoteState(quoteId)
+	if err != nil {
+		t.Skipf("state check failed: %v", err)
+	}
+	if st.State != nut05.Paid || len(st.Change) != 2 {
+		t.Skipf("setup: state %v change %d", st.State, len(st.Change))
+	}
+	after := db.GetKeysetCounter(newKs.Id)
+	if after < before+2 {
+		t.Fatalf("CONFIRMED: the mint signed 2 change outputs derived from counters %d..%d of the active keyset %s; after the state check its stored counter is %d (the counter of the INPUTS' keyset %s went from 0 to %d instead): the next outputs of %s reuse counters that are already signed",
+			before, before+1, newKs.Id, after, oldKs.Id, db.GetKeysetCounter(oldKs.Id), newKs.Id)
+	}
+}
+
+// C19: adding a mint never moves a stored counter backwards. Receive looks the
+// token's mint up by the raw URL string of the token; AddMint stores it under
+// the parsed form. A token of an already trusted mint whose URL is spelled
+// differently (scheme in upper case) goes through AddMint again.
+func TestVerifReplay_AddMintKeepsCounter(t *testing.T) {
+	mintMaster, _ := hdkeychain.NewMaster([]byte("0123456789abcdef0123456789abcdef"), &chaincfg.MainNetParams)
+	ks, err := crypto.GenerateKeyset(mintMaster, 0, 0, true)
+	if err != nil {
+		t.Fatal(err)
+	}
+	mux := http.NewServeMux()
+	mux.HandleFunc("/v1/keysets", func(rw http.ResponseWriter, req *http.Request) {
+		fmt.Fprintf(rw, `{"keysets":[{"id":%q,"unit":"sat","active":true,"input_fee_ppk":0}]}`, ks.Id)
+	})
+	mux.HandleFunc("/v1/keys/"+ks.Id, func(rw http.ResponseWriter, req *http.Request) {
+		json.NewEncoder(rw).Encode(nut01.GetKeysResponse{Keysets: []nut01.Keyset{{Id: ks.Id, Unit: "sat", Keys: ks.PublicKeys()}}})
+	})
+	mux.HandleFunc("/v1/swap", func(rw http.ResponseWriter, req *http.Request) {
+		var r nut03.PostSwapRequest
+		json.NewDecoder(req.Body).Decode(&r)
+		resp := nut03.PostSwapResponse{Signatures: cashu.BlindedSignatures{}}
+		for _, o := range r.Outputs {
+			b, _ := hex.DecodeString(o.B_)
+			B_, _ := secp256k1.ParsePubKey(b)
+			C_ := crypto.SignBlindedMessage(B_, ks.Keys[o.Amount].PrivateKey)
+			resp.Signatures = append(resp.Signatures, cashu.BlindedSignature{Amount: o.Amount, Id: ks.Id, C_: hex.EncodeToString(C_.SerializeCompressed())})
+		}
+		json.NewEncoder(rw).Encode(resp)
+	})
+	srv := httptest.NewServer(mux)
+	defer srv.Close()
+	db, err := storage.InitBolt(t.TempDir())
+	if err != nil {
+		t.Fatal(err)
+	}
+	defer db.Close()
+	wk := crypto.WalletKeyset{Id: ks.Id, MintURL: srv.URL, Unit: "sat", Active: true, PublicKeys: ks.PublicKeys(), Counter: 0}
+	if err := db.SaveKeyset(&wk); err != nil {
+		t.Fatal(err)
+	}
+	if err := db.IncrementKeysetCounter(ks.Id, 7); err != nil { // seven outputs of this keyset were signed so far
+		t.Fatal(err)
+	}
+	master, _ := hdkeychain.NewMaster([]byte("fedcba9876543210fedcba9876543210"), &chaincfg.MainNetParams)
+	priv, _ := secp256k1.GeneratePrivateKey()
+	w := &Wallet{db: db, unit: cashu.Sat, defaultMint: srv.URL, masterKey: master, privateKey: priv,
+		mints: map[string]walletMint{srv.URL: {mintURL: srv.URL, activeKeyset: wk, inactiveKeysets: map[string]crypto.WalletKeyset{}}}}
+	// the same mint, scheme spelled in upper case (srv.URL is http://127.0.0.1:port)
+	odd := "HTTP" + srv.URL[4:]
+	proofs := cashu.Proofs{{Amount: 8, Id: ks.Id, Secret: "received-odd-url", C: "02" + fmt.Sprintf("%064x", 9)}}
+	token, err := cashu.NewTokenV4(proofs, odd, cashu.Sat, false)
+	if err != nil {
+		t.Fatal(err)
+	}
+	_, rerr := w.Receive(token, false)
+	if c := db.GetKeysetCounter(ks.Id); c < 7 {
+		t.Fatalf("CONFIRMED: receiving a token that spells the trusted mint's URL as %s went through AddMint, which saved the keyset record with counter 0: stored counter of %s is now %d although counters 0..6 are signed (Receive returned: %v)", odd, ks.Id, c, rerr)
 	}
 }
